@@ -41,7 +41,7 @@ func Restore(r io.Reader, dstPath string) (int64, error) {
 
 	// The snapshot must be a full snapshot to extract a database.
 	full := hdr.GetFull()
-	if full == nil {
+	if full == nil || full.DbHeader == nil {
 		return totalRead, fmt.Errorf("snapshot has no database")
 	}
 
@@ -103,6 +103,13 @@ func Restore(r io.Reader, dstPath string) (int64, error) {
 		for _, wf := range walFiles {
 			os.Remove(wf)
 		}
+	}
+
+	// The header accounts for every byte of the stream. Anything after the
+	// last file means the header does not describe the data that was sent.
+	var extra [1]byte
+	if n, _ := io.ReadFull(r, extra[:]); n != 0 {
+		return totalRead + int64(n), fmt.Errorf("unexpected data after last file in snapshot stream")
 	}
 
 	return totalRead, nil
